@@ -14,8 +14,8 @@ Definition mkq (url : bool) (ms : list bool) (tr pa : list bytes) (base : tctx)
 Definition mkr (c : tctx) (ud ut us : bool) : tres :=
   {| r_ctx := c; r_used_draw := ud; r_used_trace := ut; r_used_span := us |}.
 
-Definition mkh (k : kind) (xs : list trace_opt) (q : treq) (out : thdrs) : hop :=
-  {| h_kind := k; h_opts := trace_options xs; h_req := q; h_out := out |}.
+Definition mkh (k : kind) (xs : list trace_opt) (q : treq) (out : thdrs) (cl : list client_layer) : hop :=
+  {| h_kind := k; h_opts := trace_options xs; h_req := q; h_out := out; h_client := cl |}.
 
 Fixpoint eqb_list {A} (eqb : A -> A -> bool) (a b : list A) : bool :=
   match a, b with
@@ -111,14 +111,14 @@ Definition sampler_mismatches (cs : list (N * Z * Z * bool)) : list N :=
      if Bool.eqb (fixed_sample p r) b then [] else [i] end) cs.
 
 (* ---- stacks: what the innermost handler found (RequestIDKey value, x-request-id
-   metadata values, the three trace keys) and what a traced client called from the
+   metadata values, the three trace keys) and what the client stack called from the
    handler put on the wire ---- *)
-Definition stack_case := (N * kind * list layer * headers * (option bytes * list bytes * tctx * option thdrs))%type.
+Definition stack_case := (N * kind * list layer * headers * list client_layer * (option bytes * list bytes * tctx * option thdrs))%type.
 
 Definition stack_mismatches (cs : list stack_case) : list N :=
-  flat_map (fun c => match c with (i, k, ls, h, (orid, omd, octx, ofwd)) =>
+  flat_map (fun c => match c with (i, k, ls, h, cl, (orid, omd, octx, ofwd)) =>
      let s := run_stack k ls {| s_rid := None; s_md := h; s_tctx := empty_ctx |} in
      let mdok := match k with KHttp => true | _ => eqb_list eqb_bytes (hvals (s_md s) XRID) omd end in
      if eqb_opt eqb_bytes (s_rid s) orid && mdok && eqb_ctx (s_tctx s) octx &&
-        eqb_opt eqb_thdrs (client_forward (s_tctx s) ([], [])) ofwd
+        eqb_opt eqb_thdrs (client_stack cl (s_tctx s) ([], [])) ofwd
      then [] else [i] end) cs.
